@@ -27,7 +27,7 @@ var (
 	thorough = flag.Bool("thorough", false, "thorough tier")
 	harness  = flag.String("harness", "/verif/harness", "path of the verifharness module")
 	plugins  = flag.String("plugins", "curry,uncurry,flip,apply,tuple", "comma separated plugin list")
-	cfg      = flag.String("cfg", "00000", "model variant flags written into every op line: unnamedFixed shadowFixed crossFixed zeroFixed lhsFixed")
+	cfg      = flag.String("cfg", "000000", "model variant flags written into every op line: unnamedFixed shadowFixed crossFixed voidFixed zeroFixed lhsFixed")
 )
 
 func must(err error) {
@@ -154,7 +154,10 @@ func (g *gen) genC15() {
 			if *thorough {
 				rcs = []int{0, 1, 2, 3}
 			} else {
-				rcs = []int{idx % 4}
+				rcs = []int{idx % 4, 1 + (idx+1)%3}
+				if rcs[0] == rcs[1] {
+					rcs = rcs[:1]
+				}
 			}
 			idx++
 			for _, rc := range rcs {
@@ -221,13 +224,17 @@ func (g *gen) genC15() {
 	}
 	for i, u := range uns {
 		ms := []int{i%4 + 1, (i+2)%4 + 1}
-		if *thorough {
+		if *thorough || i < 3 {
 			ms = []int{1, 2, 3, 4}
 		}
 		for j, m := range ms {
 			outer := g.params([]string{u.outer})
 			inner := g.params(u.inner(m))
-			g.add(&funcs.Class{Prop: "C15", Kind: "uncurry", Tag: u.tag, Outer: outer, Inner: inner, Rs: g.types((i+j)%4, false)})
+			rc := 1 + (i+j)%3
+			if j%2 == 1 {
+				rc = (i + j/2) % 4
+			}
+			g.add(&funcs.Class{Prop: "C15", Kind: "uncurry", Tag: u.tag, Outer: outer, Inner: inner, Rs: g.types(rc, false)})
 			g.stats[fmt.Sprintf("arity:%d", m+1)]++
 		}
 	}
@@ -332,8 +339,8 @@ func (g *gen) genC16() {
 
 func main() {
 	flag.Parse()
-	if len(*cfg) != 5 || strings.Trim(*cfg, "01") != "" {
-		must(fmt.Errorf("-cfg wants five binary digits"))
+	if len(*cfg) != 6 || strings.Trim(*cfg, "01") != "" {
+		must(fmt.Errorf("-cfg wants six binary digits"))
 	}
 	g := &gen{rng: rand.New(rand.NewSource(*seed)), stats: map[string]int{}}
 	want := map[string]bool{}
